@@ -517,7 +517,7 @@ PROPERTIES["C15"] = {
          "encoded": ["nano::write(std::ostream&, tensor_t)", "nano::read(std::istream&, tensor_t)", "nano::write / write_cast / read / read_cast (core/stream.h)", "nano::detail::hash, hash_combine, hash_version",
                      "tensor_t::resize / tensor_vector_storage_t (Eigen storage)", "std::istream::read, std::ostream::write, basic_ios::clear/setstate (native libstdc++ on concrete stream state)"]},
         {"engine": "sbv", "harness": "C15_models", "sources": ["C15_models.cpp", "sbv_support.cpp"], "flags": ["-fno-access-control"],
-         "quick": ["model=linear;step=4", "model=gboost;wl=4", "model=gboost;wl=2;step=3"],
+         "quick": ["model=linear;step=4", "model=gboost;wl=4", "model=gboost;wl=2;step=3", "model=gboost;wl=1;step=1", "model=linear;step=1"],
          "thorough": ["model=linear;step=1", "model=gboost;wl=4;step=4", "model=gboost;wl=3;step=1", "model=gboost;wl=1;step=1"],
          "budget": {"quick": {"deadline_s": 150, "max_paths": 20000, "query_s": 20}, "thorough": {"deadline_s": 1200, "max_paths": 200000, "query_s": 60}},
          "encoded": ["nano::gboost_model_t::{write, read, do_predict}, nano::learner_t::{write, read, critical_compatible}, nano::read / write of rwlearners_t through the weak-learner factory",
@@ -693,6 +693,11 @@ PROPERTIES["C06"] = {
          "thorough": ["fn=%s;d=%d" % (f, d) for f in _FN_BASE + _FN_ENET for d in (1, 2, 3)] + ["fn=%s;d=%d;cvx=0" % (f, d) for f in _FN_SMOOTH_HD for d in (4, 8, 12, 16, 32)] + ["fn=maxq;d=8;cvx=0", "fn=chained_lq;d=8;cvx=0"],
          "budget": {"quick": {"deadline_s": 45, "max_paths": 3000, "query_s": 8}, "thorough": {"deadline_s": 300, "max_paths": 50000, "query_s": 20}},
          "encoded": ["nano::function_t::vgrad", "function_<id>_t::do_vgrad for every registered id", "nano::function_t::{convex, strong_convexity, make}"]},
+        {"engine": "sre", "harness": "C06_surrogate", "sources": ["C06_surrogate.cpp"],
+         "quick": ["p=1", "p=2", "p=3", "p=4", "p=1;fit=1;n=2", "p=2;fit=1;n=2", "p=3;fit=1;n=2"],
+         "thorough": ["p=%d" % k for k in (1, 2, 3, 4, 5, 6)] + ["p=%d;fit=1;n=%d" % (k, n) for k in (1, 2, 3, 4) for n in (1, 2, 3)],
+         "budget": {"quick": {"deadline_s": 45, "max_paths": 2000, "query_s": 8}, "thorough": {"deadline_s": 300, "max_paths": 20000, "query_s": 20}},
+         "encoded": ["nano::quadratic_surrogate_t::do_vgrad (symbolic model coefficients and point, 1..4 hyper-parameters)", "nano::quadratic_surrogate_fit_t::do_vgrad (mse loss, symbolic evaluated points and targets)"]},
         {"engine": "sre", "harness": "C06_losses", "sources": ["C06_losses.cpp"], "concrete_strict": True,
          "quick": ["loss=%s;k=2;pat=1" % l for l in _LOSSES] + ["loss=%s;k=1;pat=0" % l for l in ("mse", "mae", "m-hinge", "m-logistic", "s-classnll", "pinball")] +
                   ["loss=%s;k=3;pat=3;multi=1" % l for l in _LOSSES if l.startswith("s-")],
